@@ -52,6 +52,7 @@ func main() {
 	write("ProvisionErr.lean", genProvisionErr())
 	write("UsagePoolSync.lean", genUsagePoolSync())
 	write("Glue.lean", genGlue())
+	write("ConfigLocks.lean", genConfigLocks())
 
 	// typed scan, cached by content hash of the scanned sources
 	h := hashTree(repo)
@@ -451,6 +452,45 @@ func genEncode() string {
 	}
 	sb.WriteString("/-- encode.go `responseWriter.init`: the edits `hdr.Del/Set/Add(<field>, …)` in source order -/\n")
 	sb.WriteString("def encodeInitHeaderEdits : List String := " + leanStrList(edits) + "\n\n")
+	// the calls on the pooled encoder object (rw.w) and its pool, in source order
+	lifecycle := func(fd *ast.FuncDecl) []string {
+		var out []string
+		if fd == nil {
+			return out
+		}
+		ast.Inspect(fd, func(n ast.Node) bool {
+			ce, ok := n.(*ast.CallExpr)
+			if !ok {
+				return true
+			}
+			sel, ok := ce.Fun.(*ast.SelectorExpr)
+			if !ok {
+				return true
+			}
+			recv := exprText(sel.X)
+			if recv != "rw.w" && !strings.Contains(recv, "writerPools") {
+				return true
+			}
+			switch sel.Sel.Name {
+			case "Get", "Put", "Close":
+				out = append(out, sel.Sel.Name)
+			case "Reset":
+				arg := "w"
+				if len(ce.Args) == 1 {
+					if id, ok := ce.Args[0].(*ast.Ident); ok && id.Name == "nil" {
+						arg = "nil"
+					}
+				}
+				out = append(out, "Reset("+arg+")")
+			}
+			return true
+		})
+		return out
+	}
+	sb.WriteString("/-- encode.go `responseWriter.init`: calls on the pooled encoder `rw.w` and on `writerPools`, in source order -/\n")
+	sb.WriteString("def encodeEncoderLifecycleInit : List String := " + leanStrList(lifecycle(findFunc(ef, "responseWriter", "init"))) + "\n\n")
+	sb.WriteString("/-- encode.go `responseWriter.Close`: the same for `Close` -/\n")
+	sb.WriteString("def encodeEncoderLifecycleClose : List String := " + leanStrList(lifecycle(findFunc(ef, "responseWriter", "Close"))) + "\n\n")
 	_, cf := parseFile("modules/caddyhttp/encode/caddyfile.go")
 	var defaults []string
 	if fd := findFunc(cf, "Encode", "UnmarshalCaddyfile"); fd != nil {
@@ -1884,4 +1924,68 @@ func genGlue() string {
 	}
 	sb.WriteString(footer)
 	return sb.String()
+}
+
+// ---------------------------------------------------------------- rawCfg lock discipline (C12)
+
+// configEvents lists, in source order, what a function does with the admin config globals: lock operations on
+// rawCfgMu (`Lock`, `defer:Unlock`, `RLock`, …), calls of the functions that read or change the config
+// (`call:<name>`), and assignments to rawCfgJSON / rawCfgIndex / rawCfg[…] (`set:<name>`). Function literals
+// in the body (restoreOldCfg) are walked in place.
+func configEvents(fd *ast.FuncDecl) []string {
+	if fd == nil || fd.Body == nil {
+		return nil
+	}
+	calls := map[string]bool{"unsyncedConfigAccess": true, "unsyncedDecodeAndRun": true, "indexConfigObjects": true,
+		"readConfig": true, "changeConfig": true, "makeEtag": true, "etagHasher": true}
+	var out []string
+	var walk func(n ast.Node, prefix string)
+	walk = func(n ast.Node, prefix string) {
+		ast.Inspect(n, func(x ast.Node) bool {
+			switch t := x.(type) {
+			case *ast.DeferStmt:
+				walk(t.Call, "defer:")
+				return false
+			case *ast.CallExpr:
+				if se, ok := t.Fun.(*ast.SelectorExpr); ok && exprText(se.X) == "rawCfgMu" {
+					out = append(out, prefix+se.Sel.Name)
+				} else if id, ok := t.Fun.(*ast.Ident); ok && calls[id.Name] {
+					out = append(out, prefix+"call:"+id.Name)
+				} else if ok && id.Name == "delete" && len(t.Args) > 0 && exprText(t.Args[0]) == "rawCfg" {
+					out = append(out, prefix+"set:rawCfg")
+				}
+			case *ast.AssignStmt:
+				for _, l := range t.Lhs {
+					switch lt := l.(type) {
+					case *ast.Ident:
+						if lt.Name == "rawCfgJSON" || lt.Name == "rawCfgIndex" {
+							out = append(out, "set:"+lt.Name)
+						}
+					case *ast.IndexExpr:
+						if exprText(lt.X) == "rawCfg" {
+							out = append(out, "set:rawCfg")
+						}
+					}
+				}
+			}
+			return true
+		})
+	}
+	walk(fd.Body, "")
+	return out
+}
+
+func genConfigLocks() string {
+	_, caddyGo := parseFile("caddy.go")
+	_, adminGo := parseFile("admin.go")
+	row := func(f *ast.File, name string) string {
+		return "  (" + leanStr(name) + ", " + leanStrList(configEvents(findFunc(f, "", name))) + ")"
+	}
+	return header +
+		"/-- caddy.go / admin.go: per function, in source order, every lock operation on `rawCfgMu` (deferred ones\n" +
+		"    prefixed `defer:`), every call of a function that reads or changes the admin config (`call:<name>`) and\n" +
+		"    every assignment to `rawCfgJSON`, `rawCfgIndex` or `rawCfg[…]` (`set:<name>`; function literals walked in place) -/\n" +
+		"def configLocks : List (String × List String) := [\n" +
+		strings.Join([]string{row(caddyGo, "changeConfig"), row(caddyGo, "readConfig"), row(adminGo, "handleConfig"),
+			row(adminGo, "handleConfigID"), row(adminGo, "unsyncedConfigAccess")}, ",\n") + "\n]\n" + footer
 }
